@@ -436,6 +436,11 @@ class Program:
                 bad = rng.choice([n for n in (0, 2, 3, nrow + 1, nrow + 2, max(0, nrow - 1)) if n not in (1, nrow)])
                 kind = rng.choice(["int", "float", "str"])
                 v = gen.np_column(kind, gen.gen_values(rng, kind, bad, "none"))
+                if nrow >= 4 and nrow % 2 == 0 and rng.random() < 0.35:
+                    # a two-dimensional array with as many ELEMENTS as the frame has rows, but not as many rows: not a column vector of length nrow
+                    v = np.arange(nrow, dtype=rng.choice(["int64", "float64"])).reshape(rng.choice([(2, nrow // 2), (nrow // 2, 2)]))
+                    bad = f"{v.shape}"
+                    self.mon.count("wrong-length:2d-array-of-nrow-elements")
                 name = rng.choice(names + ["z"])
                 how = rng.choice(["setitem", "setattr", "modify", "cbind", "setdefault", "ior", "ior-second"])
                 if how == "setdefault" and name in names:
@@ -513,6 +518,10 @@ class Program:
                         m = rng.choice([x for x in (0, 2, 3, n + 1, n - 1) if x not in (1, n)])
                         arr = gen.np_column(kind, gen.gen_values(rng, kind, m, "none"))
                         values[cn] = rng.choice([lambda a=arr: a, lambda a=arr: di.Vector(a), lambda a=arr: di.DataFrame(q=a).q])()
+                        if n >= 4 and n % 2 == 0 and rng.random() < 0.35:
+                            # n elements in two dimensions: neither a scalar, nor of length one, nor a column of n rows
+                            values[cn] = np.arange(n).reshape(2, n // 2)
+                            self.mon.count("construct-wrong-length:2d-array-of-n-elements")
                     else:
                         v1 = gen.gen_values(rng, kind, 1, "none")
                         arr = gen.np_column(kind, v1)
